@@ -324,6 +324,17 @@ def cacheseq(prop, tier, seed):
             cov[k] += pres[{"steps_replayed": "steps"}.get(k, k if k != "traces_validated_against_impl" else "evaluations")]
         cov["rule"] += ("; plus the permission universe (directories readable / mode 000 / missing, files valid / mode 000 / malformed; chmod as a "
                         "history operation), every population exhaustively and seeded histories of 8 operations, replayed by a process running as uid 65534")
+    if prop == "C13":
+        # the same statement on a cache in automatic refresh mode, Refresh() being the first operation after a repair
+        ares2, _ = run_harness("auto-errors", ["-seed", seed], timeout=600)
+        tool_errors(ares2["mismatches"])
+        for m in tagged(ares2["mismatches"], prop):
+            m["replay_sub"] = "auto-errors"
+            mine.append(m)
+        cov["evaluations"] += ares2["evaluations"]
+        cov["distinct_nontrivial"] += ares2["distinct_nontrivial"]
+        cov["auto_mode_explicit_refresh_scenarios"] = ares2["evaluations"]
+        cov["rule"] += "; plus 4 scenarios on an auto-refresh cache: a directory missing / below a regular file at set-up, listed first / last, repaired with a failing and a good file; Refresh() first, then the file repaired"
     if prop == "C16":
         # the naming half: generated transient names and the write/refresh/remove cycle under them
         nm = generic_replay(prop, tier, seed, [("SpecName", "SpecName_quick.cfg", {})] + ([("SpecName", "SpecName_thorough.cfg", {})] if tier == "thorough" else []),
